@@ -323,6 +323,8 @@ func (i *interpreter) vpOpt(name string, v int) {
 		i.p.preempt = v
 	case "timers":
 		i.sched.timerBudget = v
+	case "timestep":
+		i.p.timeStep = v
 	default:
 		panic(engineError{"vpOpt: unknown option " + name})
 	}
